@@ -352,10 +352,104 @@ fn parse_history(text: &str) -> Vec<Invocation> {
 /// lazily initialised tables, caches) starts pristine in every run, so a run is a pure function of
 /// its history and a failure replays exactly from the history alone.
 fn execute_in_child(exe: &std::path::Path, history: &[Invocation]) -> Result<Vec<Dig>, String> {
+    execute_in_child_env(exe, history, None)
+}
+
+/// Everything per-process that is not the hash schedule: wall clock (shifted through an
+/// LD_PRELOAD shim), working directory, environment. (The pid and the address-space layout
+/// differ between any two processes anyway.)
+#[derive(Clone, Debug)]
+struct Perturb {
+    skew_s: i64,
+    cwd: &'static str,
+    env: Vec<(String, String)>,
+}
+
+fn draw_perturb(rng: &mut Rng) -> Perturb {
+    let skew_s = match rng.below(4) {
+        0 => 86_400 * (1 + rng.below(40) as i64),
+        1 => -(86_400 * 365 * (1 + rng.below(30) as i64)),
+        2 => 86_400 * 365 * (1 + rng.below(30) as i64),
+        _ => 1 + rng.below(3600) as i64,
+    };
+    let cwd = *rng.pick(&["/", "/tmp", "/usr", "/var/tmp"]);
+    let mut env = Vec::new();
+    for (k, vals) in [
+        ("HOME", &["/nonexistent", "/root", ""][..]),
+        ("USER", &["nobody", "builder"][..]),
+        ("LANG", &["C", "tr_TR.UTF-8", "de_DE.UTF-8"][..]),
+        ("TZ", &["UTC", "Pacific/Kiritimati", "America/Los_Angeles"][..]),
+        ("CARGO_PKG_NAME", &["a", "some-other-crate"][..]),
+        ("CARGO_PKG_VERSION", &["0.0.1", "9.9.9"][..]),
+        ("CARGO_MANIFEST_DIR", &["/x", "/y/z"][..]),
+        ("OUT_DIR", &["/o1", "/o2"][..]),
+        ("PROFILE", &["debug", "release"][..]),
+        ("RUSTFLAGS", &["", "-C opt-level=3"][..]),
+        ("SOURCE_DATE_EPOCH", &["0", "1700000000"][..]),
+        ("HOSTNAME", &["a", "b"][..]),
+        ("RUST_LOG", &["trace", "off"][..]),
+    ] {
+        if rng.chance(2, 3) {
+            env.push((k.to_string(), rng.pick(vals).to_string()));
+        }
+    }
+    Perturb { skew_s, cwd, env }
+}
+
+fn perturb_text(p: &Perturb) -> String {
+    let mut s = format!("#perturb\t{}\t{}", p.skew_s, p.cwd);
+    for (k, v) in &p.env {
+        s.push_str(&format!("\t{}={}", k, v));
+    }
+    s
+}
+
+fn parse_perturb(line: &str) -> Option<Perturb> {
+    let f: Vec<&str> = line.split('\t').collect();
+    if f.len() < 3 || f[0] != "#perturb" {
+        return None;
+    }
+    let cwd: &'static str = match f[2] {
+        "/tmp" => "/tmp",
+        "/usr" => "/usr",
+        "/var/tmp" => "/var/tmp",
+        _ => "/",
+    };
+    Some(Perturb {
+        skew_s: f[1].parse().ok()?,
+        cwd,
+        env: f[3..]
+            .iter()
+            .filter_map(|kv| kv.split_once('=').map(|(k, v)| (k.to_string(), v.to_string())))
+            .collect(),
+    })
+}
+
+fn preload_lib() -> Option<String> {
+    std::env::var("EXPSIM_CLOCKSKEW_LIB").ok().filter(|s| !s.is_empty())
+}
+
+fn execute_in_child_env(
+    exe: &std::path::Path,
+    history: &[Invocation],
+    perturb: Option<&Perturb>,
+) -> Result<Vec<Dig>, String> {
     use std::io::Write;
     use std::process::{Command, Stdio};
-    let mut child = Command::new(exe)
-        .arg("child")
+    let mut cmd = Command::new(exe);
+    cmd.arg("child");
+    if let Some(p) = perturb {
+        cmd.env_clear();
+        cmd.current_dir(p.cwd);
+        for (k, v) in &p.env {
+            cmd.env(k, v);
+        }
+        if let Some(lib) = preload_lib() {
+            cmd.env("LD_PRELOAD", lib);
+            cmd.env("VERIF_CLOCK_SKEW", p.skew_s.to_string());
+        }
+    }
+    let mut child = cmd
         .stdin(Stdio::piped())
         .stdout(Stdio::piped())
         .stderr(Stdio::null())
@@ -534,6 +628,7 @@ struct Acc {
     threads_hist: [u64; 4],
     unexpected_reject_of_supported: u64,
     max_variants: usize,
+    cross_runs: u64,
 }
 
 fn run_cmd(args: &[String]) -> ! {
@@ -552,6 +647,7 @@ fn run_cmd(args: &[String]) -> ! {
     let rejected_supported: Mutex<Vec<J>> = Mutex::new(Vec::new());
     let child_failures: Mutex<Vec<String>> = Mutex::new(Vec::new());
     let inproc = arg(args, "--inproc").map(|s| s == "1").unwrap_or(false);
+    let cross_every: u64 = arg(args, "--cross-every").and_then(|s| s.parse().ok()).unwrap_or(4);
     let exe = std::env::current_exe().unwrap_or_else(|_| die("current_exe"));
 
     let work = || {
@@ -578,6 +674,66 @@ fn run_cmd(args: &[String]) -> ! {
                         }
                     }
                 };
+                // cross-process stage: the same history in a second fresh process with another clock,
+                // working directory and environment must give the same expansions
+                if !inproc && cross_every > 0 && idx % cross_every == 0 {
+                    let mut prng = Rng::stream(seed, tag("expsim-perturb"), idx);
+                    let pert = draw_perturb(&mut prng);
+                    match execute_in_child_env(&exe, &plan.history, Some(&pert)) {
+                        Ok(o2) => {
+                            acc.cross_runs += 1;
+                            let diff = plan
+                                .history
+                                .iter()
+                                .enumerate()
+                                .find(|(i, inv)| inv.decl.is_some() && outcomes[*i] != o2[*i])
+                                .map(|(i, _)| i);
+                            if let Some(at) = diff {
+                                let mut f = found.lock().unwrap();
+                                if f.len() < 3 {
+                                    // minimal reproduction: the differing invocation alone, if it still differs
+                                    let single = vec![plan.history[at].clone()];
+                                    let alone = match (
+                                        execute_in_child(&exe, &single),
+                                        execute_in_child_env(&exe, &single, Some(&pert)),
+                                    ) {
+                                        (Ok(a), Ok(b)) => a != b,
+                                        _ => false,
+                                    };
+                                    let hist: Vec<Invocation> = if alone {
+                                        single
+                                    } else {
+                                        plan.history[..=at].to_vec()
+                                    };
+                                    f.push(J::obj(vec![
+                                        ("run_index", J::Int(idx as i128)),
+                                        ("kind", J::s("cross_process")),
+                                        ("declaration", J::s(plan.history[at].src.clone())),
+                                        ("history", history_json(&hist)),
+                                        ("perturbation", J::s(perturb_text(&pert))),
+                                        ("differs_at", J::Int((hist.len() - 1) as i128)),
+                                        ("reference_at", J::Int((hist.len() - 1) as i128)),
+                                        ("first_difference", J::s(format!(
+                                            "the same invocation in two fresh processes: {} {} bytes {:016x} vs {} {} bytes {:016x}",
+                                            outcomes[at].class, outcomes[at].len, outcomes[at].h1, o2[at].class, o2[at].len, o2[at].h1
+                                        ))),
+                                        ("expected_class", J::s(outcomes[at].class.clone())),
+                                        ("observed_class", J::s(o2[at].class.clone())),
+                                        ("shrink_attempts", J::Int(2)),
+                                    ]));
+                                }
+                                if f.len() >= 3 {
+                                    stop.store(true, Ordering::SeqCst);
+                                }
+                            }
+                        }
+                        Err(e) => {
+                            child_failures.lock().unwrap().push(format!("run {} (perturbed): {}", idx, e));
+                            stop.store(true, Ordering::SeqCst);
+                            break;
+                        }
+                    }
+                }
                 acc.runs += 1;
                 acc.invocations += plan.history.len() as u64;
                 let nthreads = plan.history.iter().map(|i| i.thread).max().unwrap_or(0) + 1;
@@ -728,6 +884,7 @@ fn run_cmd(args: &[String]) -> ! {
         }
         t.unexpected_reject_of_supported += a.unexpected_reject_of_supported;
         t.max_variants = t.max_variants.max(a.max_variants);
+        t.cross_runs += a.cross_runs;
     }
     t.nontrivial.sort_unstable();
     t.nontrivial.dedup();
@@ -757,6 +914,8 @@ fn run_cmd(args: &[String]) -> ! {
         ("supported_but_not_expanded", J::Int(t.unexpected_reject_of_supported as i128)),
         ("supported_but_not_expanded_samples", J::Arr(rejected_supported.into_inner().unwrap())),
         ("max_variants", J::Int(t.max_variants as i128)),
+        ("cross_process_runs", J::Int(t.cross_runs as i128)),
+        ("clock_shim", J::s(preload_lib().unwrap_or_else(|| "absent: clock not perturbed".to_string()))),
         ("wall_s", J::Num(t0.elapsed().as_secs_f64())),
         ("samples", J::Arr(samples.into_inner().unwrap().into_values().collect())),
         ("violations", J::Arr(found.clone())),
@@ -834,6 +993,25 @@ fn replay_cmd(args: &[String]) -> ! {
     } else {
         std::fs::read_to_string(path).unwrap_or_else(|_| die("cannot read --file"))
     };
+    if let Some(first) = text.lines().next() {
+        if let Some(pert) = parse_perturb(first) {
+            // cross-process replay: the same history in two fresh processes
+            let body: String = text.lines().skip(1).map(|l| format!("{}\n", l)).collect();
+            let h = parse_history(&body);
+            let exe = std::env::current_exe().unwrap_or_else(|_| die("current_exe"));
+            let a = execute_in_child(&exe, &h).unwrap_or_else(|e| die(&e));
+            let b = execute_in_child_env(&exe, &h, Some(&pert)).unwrap_or_else(|e| die(&e));
+            for i in 0..h.len() {
+                println!("#{} plain: {} {} {:016x} | perturbed: {} {} {:016x}", i, a[i].class, a[i].len, a[i].h1, b[i].class, b[i].len, b[i].h1);
+                if h[i].decl.is_some() && a[i] != b[i] {
+                    println!("MISMATCH invocation #{} ({}) differs from #{} ({}): across processes ({})", i, b[i].class, i, a[i].class, first);
+                    std::process::exit(1);
+                }
+            }
+            println!("no mismatch");
+            std::process::exit(0);
+        }
+    }
     let h = parse_history(&text);
     let o = execute(&h);
     for (i, (inv, out)) in h.iter().zip(o.iter()).enumerate() {
